@@ -74,6 +74,7 @@ func checkC10(c *Ctx) {
 		c.MustTLC(TLCOpts{Module: "JsonEnc", Cfg: "JsonEnc.check", Consts: mm, ExpectViolation: true})
 	}
 	runJSONGenerators(c, "C10", jeGenerators(c, true), true)
+	jeScenarios(c, "C10")
 	// sink failures
 	ne := fmt.Sprint(c.Pick(2, 3))
 	c.MustTLC(TLCOpts{Module: "SinkFaults", Cfg: "SinkFaults.check", Consts: map[string]string{"NEntries": ne}})
